@@ -1,4 +1,5 @@
 import Rustic.Model.Restore
+import Rustic.Model.RestoreWalk
 import Driver.Util
 import Driver.C20
 /-! Driver channel `c14` — see `harness/src/c14.rs`. -/
@@ -11,7 +12,152 @@ def chars (bs : List UInt8) : List Char := bs.map (fun b => Char.ofNat b.toNat)
 def flag : String → Option Bool
   | "0" => some false | "1" => some true | _ => none
 
+/-! #### `walk` channel: the merge-walk of `collect_and_prepare` -/
+section walk
+open Rustic.RestoreWalk
+
+abbrev PathW := List (List Nat)
+
+def cmpName : List Nat → List Nat → Ordering
+  | [], [] => .eq
+  | [], _ :: _ => .lt
+  | _ :: _, [] => .gt
+  | a :: as, b :: bs => if a < b then .lt else if b < a then .gt else cmpName as bs
+
+/-- `Path::cmp`: component-wise -/
+def cmpPath : PathW → PathW → Ordering
+  | [], [] => .eq
+  | [], _ :: _ => .lt
+  | _ :: _, [] => .gt
+  | a :: as, b :: bs =>
+    match cmpName a b with
+    | .eq => cmpPath as bs
+    | o => o
+
+def properPrefix : PathW → PathW → Bool
+  | [], _ :: _ => true
+  | _, [] => false
+  | a :: as, b :: bs => a == b && properPrefix as bs
+
+def parsePath (s : String) : Option PathW :=
+  let comps := s.splitOn "/"
+  if comps.any (fun c => c.isEmpty) then none else some (comps.map (fun c => c.toList.map Char.toNat))
+
+def showPath (p : PathW) : String := "/".intercalate (p.map (fun c => String.ofList (c.map Char.ofNat)))
+
+def insertBy {α : Type} (key : α → PathW) (x : α) : List α → List α
+  | [] => [x]
+  | y :: l => if cmpPath (key x) (key y) == .lt then x :: y :: l else y :: insertBy key x l
+
+def sortBy {α : Type} (key : α → PathW) (l : List α) : List α := l.foldl (fun acc x => insertBy key x acc) []
+
+/-- destination entry: kind letter `d` dir, `f` file with other content, `F` file with the snapshot's content, `l` symlink -/
+def parseD (tok : String) : Option (DEnt PathW × Bool) :=
+  match tok.splitOn ":" with
+  | [k, p] =>
+    match parsePath p with
+    | some p =>
+      if k = "d" then some (⟨p, .dir⟩, false) else if k = "f" then some (⟨p, .file⟩, false)
+      else if k = "F" then some (⟨p, .file⟩, true) else if k = "l" then some (⟨p, .other⟩, false) else none
+    | none => none
+  | _ => none
+
+def parseN (tok : String) : Option (NEnt PathW) :=
+  match tok.splitOn ":" with
+  | [k, p] =>
+    match parsePath p with
+    | some p =>
+      if k = "d" then some ⟨p, .dir⟩ else if k = "f" then some ⟨p, .file⟩ else if k = "s" then some ⟨p, .special⟩ else none
+    | none => none
+  | _ => none
+
+def parseList {α : Type} (f : String → Option α) (s : String) : Option (List α) :=
+  if s = "-" then some [] else (s.splitOn ",").mapM f
+
+/-- destination state after `prepare_restore`: removals (`remove_dir_all` / `remove_file`) and `create_dir_all`;
+`none` = `create_dir` failed because a non-directory is in the way -/
+def applyEv (dry : Bool) (st : Option (List (PathW × DKind))) (e : Ev PathW) : Option (List (PathW × DKind)) :=
+  match st with
+  | none => none
+  | some l =>
+    match e with
+    | .additional p _ true => some (l.filter (fun x => !(x.1 == p || properPrefix p x.1)))
+    | .node p .dir false =>
+      if dry then some l
+      else if l.any (fun x => (properPrefix x.1 p || x.1 == p) && x.2 != .dir) then none
+      else
+        let pres := (List.range p.length).map (fun i => p.take (i + 1))
+        some (pres.foldl (fun acc q => if acc.any (fun x => x.1 == q) then acc else acc ++ [(q, DKind.dir)]) l)
+    | _ => some l
+
+def kindLetter : DKind → String
+  | .dir => "d" | .file => "f" | .other => "l"
+
+def walkObs (delete dry : Bool) (ds : List (DEnt PathW × Bool)) (ns : List (NEnt PathW)) : String :=
+  let ds := sortBy (fun x => x.1.path) ds
+  let ns := sortBy (fun x => x.path) ns
+  let c : Cfg PathW := { cmp := cmpPath, under := properPrefix, delete := delete, dryRun := dry }
+  let evs := walk c (ds.map (·.1)) ns
+  -- `add_file` (verify on, mtimes differ): Verified iff a regular file with the snapshot's content is there
+  let addRes (p : PathW) : AddRes :=
+    if ds.any (fun x => x.1.path == p && x.1.kind == .file && x.2) then .verified else .modify
+  let st := statsOf addRes evs
+  match evs.foldl (applyEv dry) (some (ds.map (fun x => (x.1.path, x.1.kind)))) with
+  | none => "err:InputOutput"
+  | some fin =>
+    let fin := sortBy (fun x => x.1) fin
+    let lst := if fin.isEmpty then "-" else ",".intercalate (fin.map (fun x => kindLetter x.2 ++ ":" ++ showPath x.1))
+    s!"ok {st.fRestore},{st.fUnchanged},{st.fVerified},{st.fModify},{st.fAdditional}/{st.dRestore},{st.dModify},{st.dAdditional} {lst}"
+
+/-! #### `plan` channel: `to_packs` of the plan built by `add_file` -/
+
+/-- a file is a list of chunk letters; `packOf letter` = the backup that stored it first; dst = letters of the existing
+file (`none` = absent).  Blob keys: (pack, offset = letter). -/
+def planObs (packOf : Nat → Nat) (files : List (List Nat × Option (List Nat))) : String :=
+  let blobsOf (f : List Nat × Option (List Nat)) : List Blob :=
+    let sameSize := match f.2 with | some d => d.length == f.1.length | none => false
+    (List.range f.1.length).map (fun i =>
+      let l := f.1.getD i 0
+      let hit := sameSize && (match f.2 with | some d => d.getD i 0 == l | none => false)
+      { pack := packOf l, loc := { offset := l, length := 1, dataLen := 1 }, hit := hit })
+  let r := build (files.map blobsOf)
+  let ps := toPacks r
+  let sorted := ps.foldl (fun acc x => if acc.contains x then acc else (acc.filter (· < x)) ++ [x] ++ (acc.filter (· > x))) []
+  if sorted.isEmpty then "ok -" else "ok " ++ ",".intercalate (sorted.map toString)
+
+end walk
+
+def parseLetters (s : String) : Option (List Nat) :=
+  if s = "-" then some [] else some (s.toList.map Char.toNat)
+
 def handle : List String → String
+  | ["walk", del, dry, dst, nodes] =>
+    match flag del, flag dry, parseList parseD dst, parseList parseN nodes with
+    | some del, some dry, some ds, some ns => walkObs del dry ds ns
+    | _, _, _, _ => "bad-op"
+  | ["plan", snaps, which, dsts] =>
+    -- snaps: `;`-separated backups, each `,`-separated files, each a string of chunk letters; which = snapshot to restore;
+    -- dsts: `,`-separated existing files for that snapshot (`~` absent)
+    let backups := (snaps.splitOn ";").map (fun b => (b.splitOn ",").map (fun f => f.toList.map Char.toNat))
+    match which.toNat? with
+    | some w =>
+      match backups[w]? with
+      | some files =>
+        let ds := (dsts.splitOn ",").map (fun d => if d = "~" then none else some (d.toList.map Char.toNat))
+        if ds.length ≠ files.length ∨ files.any (·.isEmpty) then "bad-op" else
+        let packOf (l : Nat) : Nat := (backups.findIdx? (fun b => b.any (fun f => f.contains l))).getD 0
+        planObs packOf (files.zip ds)
+      | none => "bad-op"
+    | none => "bad-op"
+  | ["typed", kind, del] =>
+    -- destination entry of another type than the snapshot's (walk `Equal` arm with mismatch, then `create_dir`):
+    -- a file where the snapshot has an (empty) directory is replaced with `--delete` and makes `create_dir` fail without;
+    -- a symlink in place of a directory: the property demands that nothing is written through it
+    match kind, flag del with
+    | "emptydir", some true => "ok dir"
+    | "emptydir", some false => "err:InputOutput"
+    | "symlink", some _ => "ok"
+    | _, _ => "bad-op"
   | ["file", chunk, content, old, v, s, m] =>
     match chunk.toNat?, dataOf content, flag v, flag s, flag m with
     | some n, some c, some v, some s, some m =>
